@@ -454,7 +454,7 @@ def check_property(pid, tier, seed):
                     jobs.append((h.get("binary", "kdrive"), h.get("stream", P["streams"][0]["name"]), 0, 0, os.path.join(corpus_dir, f)))
     for st in P["streams"]:
         n = st["quick"] if tier == "quick" else st["thorough"]
-        nseeds = st.get("quick_seeds", 1) if tier == "quick" else st.get("seeds", 8)
+        nseeds = st.get("quick_seeds", 3) if tier == "quick" else st.get("seeds", 8)
         for k in range(nseeds):
             jobs.append((st.get("binary", "kdrive"), st["name"], seed + 1000003 * k, n, None))
     with ThreadPoolExecutor(max_workers=min(16, max(1, len(jobs)))) as ex:
